@@ -17,8 +17,10 @@ for sid in ids:
         print(sid, "patch does not apply:", r.stderr.strip()[:100]); continue
     det, err, rules = [], [], {}
     try:
-        for p in PROPS:
-            o = sh(str(V / "check"), p, "--tier", "quick", "--no-evidence")
+        from concurrent.futures import ThreadPoolExecutor
+        with ThreadPoolExecutor(16) as ex:
+            outs = list(ex.map(lambda p: sh(str(V / "check"), p, "--tier", "quick", "--no-evidence"), PROPS))
+        for p, o in zip(PROPS, outs):
             if o.returncode == 1:
                 det.append(p); rules[p] = sorted(set(re.findall(r"rule=(\S+)", o.stdout)))
             elif o.returncode != 0:
